@@ -24,15 +24,24 @@ def tex_store_scaled(fw, ds):
 
 
 PROP = {
-    "level_text": "Only FixWord::to_scaled = TeX's store_scaled is decided (every fix_word, each design size of a stated list). fix_word print/parse, compress and next-larger chains are NOT decided.",
+    "level_text": "Decided: FixWord::to_scaled = TeX's store_scaled (every fix_word, each design size of a stated list), and the printing half of the text round trip (the real Display code against a transcription of PLtoTF's get_fix). The repository's own PL number scanner, compress and next-larger chains are NOT decided.",
     "title": "Font-metric arithmetic: fix_word text, scaling, compression match TeX",
     "explanation": "FixWord::to_scaled is executed from MIR (loop unrolled, to_be_bytes modelled) against TeX's store_scaled for every legal (value, design size) pair.",
     "outside": [
         "design sizes outside [1, 2048) and fix_words outside [-16, 16) (TeX.2021.568 and TFtoPL.2014.60 reject them)",
-        "compress() and NextLargerProgram beyond the stated harness bounds; multisets up to 300 / graphs on 256 characters are far outside",
+        "compress() and NextLargerProgram: NOT decided (not attempted)",
+        "the PL reader's number scanner (pl::ast Parse for FixWord): text based and private; only Knuth's get_fix, transcribed, reads the printed text here",
     ],
     "assumptions": ["mir2smt models of to_be_bytes and the integer operators"],
     "obligations": [
+        dict(engine="A", module="c17_fixword_print", name="c17_print_get_fix_every_fraction", features=["p_tfm"], tier="thorough", timeout=900,
+             funcs=["tfm: impl Display for FixWord (TFtoPL.2014.40-43, through core::fmt into a byte sink)"],
+             bound="every fix_word with |v| < 1.0 (all 2^21 - 1 values, either sign): the printed decimal has 1..7 fraction digits and a transcription of PLtoTF.2014.62-64 get_fix converts it back to v",
+             assumes=["the reader is Knuth's get_fix transcribed in the harness; the repository's own PL number scanner (private, text based) is not exercised"]),
+        dict(engine="A", module="c17_fixword_print", name="c17_print_get_fix_every_value", features=["p_tfm"], tier="quick", timeout=1500,
+             funcs=["tfm: impl Display for FixWord (TFtoPL.2014.40-43, through core::fmt into a byte sink)"],
+             bound="every fix_word -2048 < v < 2048 (all 2^32 - 1 values) in one query",
+             assumes=["the reader is Knuth's get_fix transcribed in the harness"]),
         dict(engine="B", name="c17_to_scaled", crates=["tfm", "common"], fn=("tfm", "to_scaled", "FixWord", None),
              args=[("x", "FixWord"), ("ds", "FixWord")],
              pre=lambda a: tm.and_(tm.le(I(-(16 << 20)), f0(a["x"])), tm.lt(f0(a["x"]), I(16 << 20)),
